@@ -1355,6 +1355,9 @@ def _writer_model(repo, mc, ml):
     globs = {"dfn": dfn, "copy": Namespace("copy", deepcopy=_copy.deepcopy)}
     from ..lib_C11 import module_level
     module_level(repo.tree(WR), globs, interp, assigns=False)
+    from ..lib_C11 import ClassModel
+    writer = ClassModel(repo.cls(WR, "RTDCWriter"), globs, interp,
+                        strict_instances=True)
 
     def store(meta):
         attrs = {}
@@ -1362,8 +1365,8 @@ def _writer_model(repo, mc, ml):
         def brand(old_version=None, write_attribute=True):
             return "dclab model" if not old_version else (
                 f"{old_version} | dclab model")
-        me = Namespace("self", h5file=Namespace("h5file", attrs=attrs),
-                       version_brand=brand, path="model.rtdc")
+        me = writer.instance(h5file=Namespace("h5file", attrs=attrs),
+                             version_brand=brand, path="model.rtdc")
         interp.steps = 0
         err = None
         try:
@@ -2508,4 +2511,25 @@ MUTANTS = list(MUTANTS) + [
       "        typ = meta_const.config_types[section][key]\n",
       "    elif (table_typ := meta_const.config_funcs.get(section, {})"
       ".get(key)):\n        typ = table_typ\n"), "R11.2"),
+]
+
+# round-4 refactoring (reduced): store_metadata split at the
+# validation / writing seam
+TWINS = list(TWINS) + [
+    ("writer: branding and attribute loop in a private method", WR,
+     ("        # update version\n        old_version = meta.get(",
+      "        self._store_checked_metadata(meta)\n\n"
+      "    def _store_checked_metadata(self, meta):\n"
+      "        # update version\n        old_version = meta.get(")),
+]
+MUTANTS = list(MUTANTS) + [
+    ("writer: attributes written before the metadata are validated", WR,
+     [("        # Check meta data\n        for sec in meta:\n",
+       "        self._store_checked_metadata(meta)\n"
+       "        # Check meta data\n        for sec in meta:\n"),
+      ("        # update version\n        old_version = meta.get(",
+       "        return\n\n"
+       "    def _store_checked_metadata(self, meta):\n"
+       "        # update version\n        old_version = meta.get(")],
+     "R11.4"),
 ]
